@@ -5,6 +5,7 @@ import (
 	"strconv"
 	"strings"
 	"sync"
+	"sync/atomic"
 	"time"
 
 	"verif/harness/host"
@@ -19,6 +20,9 @@ type lifeClient struct {
 	kind string
 	cn   *wire.Conn
 	id   int64
+	// pollers: closed when the polling goroutine has seen the connection end; served counts its answered commands
+	ended  chan struct{}
+	served atomic.Int64
 }
 
 // afterClose: what a pre-existing connection experiences on its next request after Close() returned.
@@ -44,7 +48,10 @@ func c20Termination(r *verdict.Run, race bool) {
 		// clients whose blocking command has been dispatched but does not count as blocked yet when the termination starts
 		"about-to-block",
 		// clients that do not read their (large) replies: still connected, or gone by reset while the emulator was writing
-		"stalled-reader", "stalled-reader-rst"}
+		"stalled-reader", "stalled-reader-rst",
+		// many idle clients plus clients that keep asking for INFO / CLIENT LIST / CLIENT INFO / DBSIZE and keep connecting
+		// and disconnecting while the termination runs (the commands that look at the client table and the statistics)
+		"busy-introspection"}
 	parallel(len(scenarios), 6, func(i int) {
 		sc := scenarios[i]
 		c, err := startChild(race)
@@ -110,6 +117,37 @@ func c20Termination(r *verdict.Run, race bool) {
 					b = append(b, resp.Cmd("GET", "big")...)
 				}
 				lc.cn.Send(b)
+			case "poller":
+				lc.ended = make(chan struct{})
+				go func(n int) {
+					defer close(lc.ended)
+					lc.cn.Timeout = 3 * time.Second
+					for i := 0; ; i++ {
+						var err error
+						switch (i + n) % 5 {
+						case 0:
+							_, err = lc.cn.Do("INFO")
+						case 1:
+							_, err = lc.cn.Do("CLIENT", "LIST")
+						case 2:
+							_, err = lc.cn.Do("CLIENT", "INFO")
+						case 3:
+							_, err = lc.cn.Do("DBSIZE")
+						case 4:
+							// connection churn next to the polling
+							if tmp, e2 := wire.Dial(e.port); e2 == nil {
+								tmp.Timeout = time.Second
+								tmp.Do("INFO", "clients")
+								tmp.Close()
+							}
+							_, err = lc.cn.Do("INFO", "stats")
+						}
+						if err != nil {
+							return
+						}
+						lc.served.Add(1)
+					}
+				}(len(clients))
 			case "blocked-forever":
 				lc.cn.SendCmd("BLPOP", "never-pushed", "0")
 			case "blocked-10s":
@@ -157,6 +195,13 @@ func c20Termination(r *verdict.Run, race bool) {
 						return n >= 3
 					}
 				}(), 3*time.Second)
+			}
+		case "busy-introspection":
+			for j := 0; j < 150; j++ {
+				mk("idle")
+			}
+			for j := 0; j < 8; j++ {
+				mk("poller")
 			}
 		case "no-clients", "close-api", "reqterm-then-wait":
 			mk("idle")
@@ -242,6 +287,14 @@ func c20Termination(r *verdict.Run, race bool) {
 				alive, what = err == nil, v.String()
 				if err != nil {
 					what = err.Error()
+				}
+			case "poller":
+				// its polling loop ends when the connection does
+				select {
+				case <-lc.ended:
+					alive, what = false, "ended"
+				case <-time.After(4 * time.Second):
+					alive, what = true, fmt.Sprintf("still polling after Close() (%d commands answered so far)", lc.served.Load())
 				}
 			case "in-multi":
 				alive, what = probeDead(lc.cn, "EXEC")
@@ -503,7 +556,7 @@ func c20MultiInstance(r *verdict.Run, race bool) {
 var _ sync.Mutex
 
 func checkC20(r *verdict.Run) {
-	r.Rule = "scenarios run inside child processes through the emulator's Go API (RequestTermination / WaitForTermination / Close), observed through sockets: (1) termination with 16 client populations (idle, half a command sent, pipeline in flight, inside MULTI, blocked with timeout 0 and 10 s, 200 connections, mixtures, and the same kinds after the clients went away by close / reset / half-close before the termination, alone or next to live clients, clients whose blocking command was dispatched but not yet blocked, and clients that do not read 48 MiB of replies - still connected or reset while the emulator was writing): Close must return within 6 s and afterwards every pre-existing connection must get EOF/reset on its next request (never a normal reply, never a write), new connections are refused, and within 3 s no goroutine of the emulator is left; " +
+	r.Rule = "scenarios run inside child processes through the emulator's Go API (RequestTermination / WaitForTermination / Close), observed through sockets: (1) termination with 17 client populations (150 idle clients next to 8 that poll INFO / CLIENT LIST / CLIENT INFO / DBSIZE and connect and disconnect all the time, idle, half a command sent, pipeline in flight, inside MULTI, blocked with timeout 0 and 10 s, 200 connections, mixtures, and the same kinds after the clients went away by close / reset / half-close before the termination, alone or next to live clients, clients whose blocking command was dispatched but not yet blocked, and clients that do not read 48 MiB of replies - still connected or reset while the emulator was writing): Close must return within 6 s and afterwards every pre-existing connection must get EOF/reset on its next request (never a normal reply, never a write), new connections are refused, and within 3 s no goroutine of the emulator is left; " +
 		"(2) port/state reuse: Close then a new emulator on the same port in the same process, repeatedly, with predecessor connections still open and writing: it must bind and be empty in all 16 databases; (3) two emulators in one process: data, CLIENT LIST, CLIENT KILL, CLIENT UNBLOCK must not cross instances, closing one leaves the other serving. distinct = scenarios and cycles"
 	c20Termination(r, false)
 	c20PortReuse(r, tierPick(r, 50, 1000))
